@@ -10,6 +10,7 @@ import (
 	"time"
 
 	"github.com/sheerbytes/sheerbytes/internal/transfer"
+	"github.com/sheerbytes/sheerbytes/pkg/manifest"
 	"github.com/sheerbytes/sheerbytes/verifharness/internal/hx"
 	"github.com/sheerbytes/sheerbytes/verifharness/internal/memnet"
 )
@@ -34,13 +35,19 @@ func runC02e2e(cfg config, rep *hx.Report, n int) {
 	rng := hx.NewRand(cfg.seed).Fork(9)
 	base, _ := os.MkdirTemp("", "c02e")
 	defer os.RemoveAll(base)
-	for i := 0; i < n; i++ {
+	nFlip := n / 4 // further runs: a payload or checksum bit flipped in a RESUMED transfer
+	for i := 0; i < n+nFlip; i++ {
 		if tooManyHangs(rep) {
 			continue
 		}
 		cs := rng.Pick(3, 16, 64)
 		streams := 1 + rng.Intn(4)
 		resume := rng.Bool()
+		// a resumed transfer: the output directory holds part of every file and honest metadata
+		primed := rng.Intn(2) == 0
+		if i >= n {
+			resume, primed = true, true
+		}
 		seed := rng.U64() % 1000000
 		tr := hx.NewRand(seed)
 		tree := genTree(tr, cs, 5)
@@ -60,6 +67,15 @@ func runC02e2e(cfg config, rep *hx.Report, n int) {
 		kinds := []string{"cut-data-graceful", "cut-data-abrupt", "cut-control-s2r", "cut-control-r2s", "flip-data", "cancel-sender", "cancel-receiver",
 			"source-shrinks", "source-vanishes", "output-obstructed", "conn-lost", "conn-closed-code0"}
 		f := e2eFault{kind: kinds[rng.Intn(len(kinds))], at: int64(rng.Intn(total + 60)), s: rng.Intn(streams)}
+		if i >= n {
+			f.kind, f.at = "flip-data", int64(rng.Pick(4, 4, 4, 0, 1, 2, 3))
+		}
+		if resume && primed {
+			if k := seedPrior(src, out, cs, rng); k > 0 {
+				f.note = fmt.Sprintf("resumed: %d chunks already there", k)
+				rep.Count("e2e-resumed-from-prior-state")
+			}
+		}
 		var scancel, rcancel context.CancelFunc
 		var fired atomic.Bool
 		c := xferCfg{chunkSize: cs, streams: streams, resume: resume, quicLike: rng.Intn(3) == 0, timeout: 8 * time.Second}
@@ -132,7 +148,7 @@ func runC02e2e(cfg config, rep *hx.Report, n int) {
 					os.MkdirAll(filepath.Dir(target), 0755)
 					os.WriteFile(target, []byte("in the way"), 0644)
 				}
-				f.note = o.how + ":" + o.rel
+				f.note = strings.TrimSpace(f.note + " " + o.how + ":" + o.rel)
 				fired.Store(true)
 			}
 		case "cancel-sender", "cancel-receiver":
@@ -163,6 +179,16 @@ func runC02e2e(cfg config, rep *hx.Report, n int) {
 						time.Sleep(50 * time.Microsecond)
 					}
 				}()
+			}
+		}
+		if resume && primed {
+			// as the application does by default: the last recorded chunk is sent again
+			inner := c.sendOpts
+			c.sendOpts = func(o *transfer.Options) {
+				if inner != nil {
+					inner(o)
+				}
+				o.ResumeVerifyTail = 1
 			}
 		}
 		srcDigest, _ := digestTree(src) // before a source fault changes it
@@ -205,4 +231,50 @@ func runC02e2e(cfg config, rep *hx.Report, n int) {
 		}
 		os.RemoveAll(dir)
 	}
+}
+
+// seedPrior leaves in out what an interrupted earlier fetch of src would have left: for every
+// file a number of its chunks (a prefix, sometimes with a hole, sometimes all of them) and
+// metadata that says exactly that.  Returns the number of chunks recorded.
+func seedPrior(src, out string, cs int, r *hx.Rand) int {
+	m, err := manifest.Scan(src)
+	if err != nil {
+		return 0
+	}
+	recorded := 0
+	for _, it := range m.Items {
+		if it.IsDir || it.Size == 0 || r.Intn(5) == 0 {
+			continue
+		}
+		data, err := os.ReadFile(filepath.Join(src, filepath.FromSlash(it.RelPath)))
+		if err != nil {
+			continue
+		}
+		total := (len(data) + cs - 1) / cs
+		have := 1 + r.Intn(total)
+		op := filepath.Join(out, filepath.FromSlash(it.RelPath))
+		os.MkdirAll(filepath.Dir(op), 0755)
+		buf := make([]byte, len(data))
+		sc, err := transfer.LoadOrCreateSidecar(transfer.SidecarPath(out, "", transfer.VerifSidecarIdentifier(it)), it.ID, it.Size, uint32(cs))
+		if err != nil {
+			continue
+		}
+		for k := 0; k < have; k++ {
+			if have > 2 && k == have-2 && r.Intn(4) == 0 {
+				continue // completed out of order: a hole below the last recorded chunk
+			}
+			lo, hi := k*cs, (k+1)*cs
+			if hi > len(data) {
+				hi = len(data)
+			}
+			copy(buf[lo:hi], data[lo:hi])
+			sc.MarkComplete(uint32(k))
+			recorded++
+		}
+		os.WriteFile(op, buf, 0644)
+		if err := sc.Flush(); err != nil {
+			panic(err)
+		}
+	}
+	return recorded
 }
